@@ -248,3 +248,6 @@ PLANS["C04"].proofs += _UNARY_PLAIN + _OUTV
 PLANS["C18"].proofs += _OUTV + [("contracts.ufunc", n) for n in _U.UNARY if "_out_" in n]
 PLANS["C08"].proofs += _UNARY_OFFSET
 PLANS["C16"].proofs += [("contracts.ufunc", n) for n in _U.UNARY if "_out_" not in n and "_offset" not in n]
+
+from contracts import closeness as _CL   # noqa: E402
+PLANS["C19"].proofs += [("contracts.closeness", n) for n in _CL.ALL]
